@@ -18,19 +18,25 @@ def main():
     ctx = vlib.Ctx('DBG', 'quick', 1)
     exe = ctx.harness()
     p = os.path.join(ctx.scratch, 's'); vlib.write_ndjson(p, [sc])
-    subprocess.run([exe, 'srv', '--in', p, '--out', p + '.tr'], check=True)
+    cli = any(st.get('op') in ('call', 'resp', 'srvclose') for st in sc['steps'])
+    subprocess.run([exe, 'cli' if cli else 'srv', '--in', p, '--out', p + '.tr'], check=True)
     tr = json.loads(open(p + '.tr.0').readline())
-    if 'abs' in sc and sc['abs'] and isinstance(sc['abs'][0], dict): print('ABS', [(e['op'], e['sid'], e['a'], e['b'], e['es'], e['eh']) for e in sc['abs']])
+    if 'abs' in sc and sc['abs'] and isinstance(sc['abs'][0], dict): print('ABS', [tuple(e.values()) for e in sc['abs']])
     for e in tr['evs']:
         k = e['k']
-        if k in ('send', 'recv'): print('%-5s %s' % (k, fs(e['f'])))
+        if k in ('send', 'recv'): print('%-5s %s%s' % (k, ('r%s ' % e['req']) if 'req' in e else '', fs(e['f'])))
+        elif k == 'q' and cli: print('  q   open=%d pending=%d queued=%d closed=%s canopen=%s%s' % (e['open'], e['pending'], e['queued'], e['closed'], e['canopen'], ' SETTLED' if e['settled'] else ''))
         elif k == 'q': print('  q   run=%d strms=%d open=%d ring=%d%s' % (e['running'], e['strms'], e['open'], e['ring'], ' SETTLED' if e['settled'] else ''))
         elif k == 'hstart': print('HSTART sid=%d %s %s blen=%d fields=%s' % (e['sid'], bytes(e['method']).decode(), bytes(e['path']).decode(), e['blen'], [(bytes(n).decode('latin1'), bytes(v).decode('latin1')[:20]) for n, v in e['fields']]))
-        else: print(k.upper(), {a: b for a, b in e.items() if a != 'k'})
+        else: print(k.upper(), {a: (b if a != 'fields' else [(bytes(n).decode('latin1'), bytes(v).decode('latin1')[:20]) for n, v in b]) for a, b in e.items() if a != 'k'})
     if len(sys.argv) > 2:
         import srvfam
         tf = os.path.join(ctx.scratch, 'one.tr'); open(tf, 'w').write(json.dumps(dict(tr, t=1)) + '\n')
-        bad, r = srvfam.validate(ctx, tf)
+        if cli:
+            import cliprop
+            bad = cliprop.judge(ctx, [sc], tf, {'C02','C07','C11','C12','C14','C18','C20'})
+        else:
+            bad, r = srvfam.validate(ctx, tf)
         print('VERDICT', bad)
     import shutil; shutil.rmtree(ctx.scratch, ignore_errors=True)
 main()
